@@ -133,6 +133,7 @@ def navigations(w, all_paths):
 
 
 MORE = [(f,) for f in FLAGS] + [tuple(FLAGS)]
+STATE_CAP = 5000
 
 
 def _owner(name):
@@ -262,6 +263,11 @@ def explore(task):
                 viols.append(v)
 
         while frontier:
+            if len(seen) > STATE_CAP:
+                # the wrapper states of the unchanged tree close after a few hundred per start; a change that makes
+                # navigation hand out ever new kinds of wrappers (e.g. growing local-parent chains) never would
+                report(_viol(task, "navigation-does-not-close", f"more than {STATE_CAP} distinct wrapper states reachable from one start (last: {chain})", chain))
+                break
             w, chain = frontier.pop(0)
             # ---- invariants in this state
             fl = flags_of(w)
